@@ -21,7 +21,7 @@ def main():
     if only:
         props = [p for p in props if p["id"] in only]
     # 1. regenerate Gen files
-    with vcheck.Lock(os.path.join(vcheck.LEAN, ".verif.lock")):
+    with vcheck.Lock(os.path.join(vcheck.LEAN, ".verif.setup.lock")):
         for d in props:
             rep = {}
             ok = vcheck.regenerate(d, rep)
